@@ -272,7 +272,9 @@ func (s *Sim) runC03Scenario(sc *Scenario, r *Rng) {
 			idxs = append(idxs, i)
 		}
 	}
+	class := 0 // error class carried by the injected failure (see injectedErrClasses)
 	check := func(fail map[int]int, label string) {
+		errClass = class
 		ex := s.execScenario(sc, fail)
 		s.Stats.Count("injected_executions")
 		s.Stats.Count("rule:C03.fault-implies-error-ack")
@@ -288,6 +290,10 @@ func (s *Sim) runC03Scenario(sc *Scenario, r *Rng) {
 		}
 		first := ex.Fired[0]
 		mode := map[int]string{faultBefore: "before", faultAfter: "after", faultPanic: "panic"}[fail[first]]
+		if class != 0 {
+			mode += "/" + injectedErrNames[class]
+			s.Stats.Fault("injected_error_class:" + injectedErrNames[class])
+		}
 		fp := fmt.Sprintf("swallowed-failure site=%s mode=%s route=%s", occurrence(ex.Calls, first), mode, route)
 		s.Stats.States[fmt.Sprintf("%s|%s|%s|%d", route, occurrence(ex.Calls, first), mode, len(fail))] = true
 		if ex.V.Success {
@@ -301,6 +307,15 @@ func (s *Sim) runC03Scenario(sc *Scenario, r *Rng) {
 		for _, mode := range []int{faultBefore, faultAfter, faultPanic} {
 			check(map[int]int{i: mode}, occurrence(dry.Calls, i))
 		}
+		// the same failure carrying each registered error class: nothing may be retried, repaired or waved through
+		// because of the kind of error a downstream module returned
+		for class = 1; class < len(injectedErrClasses); class++ {
+			check(map[int]int{i: faultBefore}, occurrence(dry.Calls, i))
+			if class == 1+i%(len(injectedErrClasses)-1) {
+				check(map[int]int{i: faultAfter}, occurrence(dry.Calls, i))
+			}
+		}
+		class = 0
 	}
 	// every pair
 	pairs := 0
@@ -684,6 +699,37 @@ func (s *Sim) runC05Scenario(sc *Scenario) {
 	if len(reqs) == 0 {
 		s.Stats.Count("c05_refused_before_bridge")
 		return
+	}
+	// exactly once also under failure: when the bridge refuses the request - whatever class of error it returns -
+	// the transfer is refused; the orbiter never re-issues the request, with the same or with other parameters
+	if ex.V.Success && len(reqs) == 1 {
+		ri := -1
+		for i, c := range ex.Calls {
+			if isBridgeSite(c.Site) {
+				ri = i
+			}
+		}
+		for k := range injectedErrClasses {
+			errClass = k
+			fx := s.execScenario(sc, map[int]int{ri: faultBefore})
+			s.Stats.Count("rule:C05.no-reissue-after-bridge-failure")
+			s.Stats.Fault("injected_error_class:" + injectedErrNames[k])
+			if fx.V.Panic != "" {
+				s.violate("C14", "U1-no-panic", "modeb: "+oneLine(fx.V.Panic), fx.V.Panic)
+				continue
+			}
+			nreq := 0
+			for _, c := range fx.Calls {
+				if isBridgeSite(c.Site) {
+					nreq++
+				}
+			}
+			if nreq != 1 {
+				bad("request-reissued-after-bridge-failure class="+injectedErrNames[k], "the bridge refused the request (%s error) and the orbiter made %d requests in all, the last one %+v", injectedErrNames[k], nreq, fx.Calls[len(fx.Calls)-1].Req)
+			} else if fx.V.Success {
+				bad("success-although-bridge-refused class="+injectedErrNames[k], "the bridge refused the request (%s error) and the acknowledgement is a success", injectedErrNames[k])
+			}
+		}
 	}
 	fo := FeeOutcome{Total: new(big.Int)}
 	if pl.HasFee {
